@@ -229,8 +229,12 @@ class Task:
             content_length_header = str(self.content_length)
             self.response_headers.append(("Content-Length", content_length_header))
 
+        # the parser's verdict that the connection cannot be reused after this
+        # message (e.g. Content-Length together with Transfer-Encoding)
+        force_close = getattr(self.request, "connection_close", False)
+
         if version == "1.0":
-            if connection == "keep-alive":
+            if connection == "keep-alive" and not force_close:
                 if not content_length_header:
                     self.set_close_on_finish()
                 else:
@@ -239,7 +243,7 @@ class Task:
                 self.set_close_on_finish()
 
         elif version == "1.1":
-            if connection == "close":
+            if connection == "close" or force_close:
                 self.set_close_on_finish()
 
             if not content_length_header:
